@@ -322,17 +322,32 @@ InterfaceOperations::find_impl_for_struct(const std::string &struct_name,
         if (gt_pos != std::string::npos) {
             std::string args_str =
                 struct_name.substr(lt_pos + 1, gt_pos - lt_pos - 1);
-            std::stringstream ss(args_str);
+            // split at the top-level commas only: Cell<Duo<int, long>> has
+            // ONE type argument
             std::string arg;
-            while (std::getline(ss, arg, ',')) {
-                // トリム
+            int depth = 0;
+            auto flush_arg = [&]() {
                 size_t start = arg.find_first_not_of(" \t");
                 size_t end = arg.find_last_not_of(" \t");
                 if (start != std::string::npos) {
                     type_arguments.push_back(
                         arg.substr(start, end - start + 1));
                 }
+                arg.clear();
+            };
+            for (char ch : args_str) {
+                if (ch == '<') {
+                    depth++;
+                } else if (ch == '>') {
+                    depth--;
+                }
+                if (ch == ',' && depth == 0) {
+                    flush_arg();
+                } else {
+                    arg += ch;
+                }
             }
+            flush_arg();
         }
     }
 
